@@ -698,11 +698,15 @@ func (s *Server) Invoke(responseWriter http.ResponseWriter, invoke *interop.Invo
 	resetCtx, resetCancel := context.WithCancel(context.Background())
 	defer resetCancel()
 
+	timedOutCtx, timedOut := context.WithCancel(context.Background())
+	defer timedOut()
+
 	timeoutChan := make(chan error)
 	go func() {
 		select {
 		case <-time.After(s.GetInvokeTimeout()):
 			log.Debug("Invoke() timeout")
+			timedOut()
 			timeoutChan <- ErrInvokeTimeout
 		case <-resetCtx.Done():
 			log.Debugf("execute finished, autoreset cancelled")
@@ -732,6 +736,14 @@ func (s *Server) Invoke(responseWriter http.ResponseWriter, invoke *interop.Invo
 		if err != nil {
 			log.Infof("ReserveFailed: %s", err)
 			releaseErrChan <- err
+			return
+		}
+		if timedOutCtx.Err() != nil {
+			// Reserved only after the invoke timeout had fired: Invoke() answers with the timeout
+			// and its reset may already be over, so nobody else would release this reservation.
+			log.Infof("Reserved after the invoke timed out: releasing")
+			_ = s.Release()
+			releaseErrChan <- ErrInvokeTimeout
 			return
 		}
 
